@@ -568,6 +568,9 @@ func (c *Context) onKill(message *vivid.OnKill, behavior vivid.Behavior) {
 		// 已处于停止流程中（例如优雅停止正在等待子 Actor 终止）时收到立即终止：仍需将其下达给子 Actor。
 		// 因监督而被挂起的子 Actor，其毒杀消息滞留在暂停的邮箱中，若不转发，停止流程将永远无法完成
 		if !message.Poison && atomic.LoadInt32(&c.state) == killing {
+			// 重启流程中（正在等待子 Actor 终止）收到立即终止：终止优先于重启。清除重启标记后，待子 Actor 全部终止时
+			// 终止流程将按"终止"而非"重启"收尾；否则该 Kill 会丢失，Actor 重启后继续运行，而调用方以为其已终止
+			c.restarting = nil
 			for _, child := range c.Children() {
 				c.Kill(child, false, message.Reason)
 			}
